@@ -20,7 +20,7 @@ Ties
 import os, base64, pickle, collections, itertools, json, numpy
 from fractions import Fraction
 from nutils import evaluable as ev, types
-from . import genexpr, ser, shrink, exprcheck as X
+from . import genexpr, ser, shrink, exprcheck as X, c05_gen as G
 from .common import Infra
 
 STRUCTURAL = ['InsertAxis', 'Transpose', 'Add', 'Multiply', 'Sum', 'Inflate', 'Diagonalize', 'Ravel', 'Unravel', 'Unravel0', 'Take', 'TakeDiag',
@@ -264,23 +264,81 @@ def signature(mode, clause, e, args, tol):
     return '%s-wrong:%s:%s' % ({'coo': 'assparse', 'raw': 'assparse', 'csr': 'as_csr'}[mode], clause, shrink.skeleton(small)), small, sargs
 
 
-def v_stream(c, ncases, maxdepth, npy=0):
+def features(s):
+    """which of the higher-rank mechanisms are present in a (simplified) tree: evidence that they survive simplification"""
+    f = set()
+    for n in shrink.all_nodes(s):
+        name = type(n).__name__
+        if name == 'Inflate':
+            f.add('Inflate:dofmap-ndim=%d' % n.dofmap.ndim)
+        elif name == 'Multiply':
+            f.add('Multiply:factors=%d' % min(len(tuple(n._factors)), 5))
+        elif name in ('LoopSum', 'LoopConcatenate'):
+            f.add('%s:ndim=%d' % (name, n.ndim))
+    return f
+
+
+STRUCT = dict(prod=lambda rng, it: G.product_case(rng), inflate=lambda rng, it: G.inflate_case(rng), loop=lambda rng, it: G.loop_case(rng),
+              orders=lambda rng, it: next(it))
+
+
+def v_plan(c, ncases, maxdepth, npy, struct):
+    """list of (judged by Lean too?, producer of (expr, arguments, tag)).  `struct`: counts of the structured higher-rank generators
+    (nvh.c05_gen) appended to the real-evaluation-only part; one in six of the Lean-judged cases is structured, too"""
+    def dag(lean):
+        def make():
+            e, g = random_dag(c.rng, maxdepth) if lean else sparse_dag(c.rng, maxdepth)
+            return e, g.args, 'dag' if lean else 'sparse-dag', g
+        return make
+    def dag5():
+        e, g = G.sparse_dag5(c.rng, maxdepth)
+        return e, g.args, 'sparse-dag5', g
+    plan = []
+    for i in range(ncases + npy):
+        lean = i < ncases
+        if i % 3 == 2:
+            if lean and i % 6 == 5:
+                plan.append((lean, (lambda k: lambda: STRUCT[k](c.rng, None))(c.rng.choice(['prod', 'inflate', 'loop']))))
+            else:
+                plan.append((lean, lambda: fem_case(c.rng)))
+        else:
+            plan.append((lean, dag(lean)))
+    extra = []
+    for kind, n in sorted(struct.items()):
+        if kind.startswith('orders'):
+            nd = int(kind[6:])
+            for rep in range(n):
+                it = G.product_orders(c.rng, nd)
+                extra += [(False, (lambda it: lambda: next(it))(it)) for _ in range(G.n_orders(nd))]
+        elif kind == 'dag5':
+            extra += [(False, dag5)] * n
+        else:
+            extra += [(False, (lambda k: lambda: STRUCT[k](c.rng, None))(kind))] * n
+    return plan + extra
+
+
+def v_stream(c, ncases, maxdepth, npy=0, struct={}, prefix='V', late=False):
+    """late: the stream has nothing for Lean (ncases = 0) and does all its work (real extraction, real evaluation, exact recomputation
+    oracle) after it has been resumed, i.e. while the Lean driver is busy with the requests of the other streams"""
+    if late:
+        assert ncases == 0
+        yield []
     cases, reqs, pyonly = [], [], []
     out = collections.Counter()
     hits = collections.Counter()
-    for i in range(ncases + npy):
-        lean = i < ncases
+    for lean, make in v_plan(c, ncases, maxdepth, npy, struct):
         try:
-            if i % 3 == 2:
-                e, args, tag = fem_case(c.rng)
-            elif lean:
-                e, g = random_dag(c.rng, maxdepth); args = g.args; tag = 'dag'
-                for k, v in g.hits.items(): hits['gen:' + k] += v
-            else:
-                e, g = sparse_dag(c.rng, maxdepth); args = g.args; tag = 'sparse-dag'
-                for k, v in g.hits.items(): hits['gen:' + k] += v
+            e, args, tag, *g = make()
+            for k, v in (g[0].hits.items() if g else ()): hits['gen:' + k] += v
+        except StopIteration:
+            continue
         except Exception as ex:
             out['generator-exception:' + type(ex).__name__] += 1; continue
+        if ':' in tag:
+            out['struct:' + tag.split('+')[0].split('/')[0]] += 1
+            for op in tag.split('+')[0].split('/')[1:]: out['struct:%s:%s' % (tag.split(':')[0], op)] += 1
+            for op in tag.split('+')[1:]: out['struct:post-op:' + op] += 1
+            tag = tag.split(':')[0]
         out['generated:' + tag] += 1
         k0, v0 = X.real_eval(e, args)
         if k0 != 'ok':
@@ -305,6 +363,8 @@ def v_stream(c, ncases, maxdepth, npy=0):
                                 dict(mode=mode, expr=X.describe(e, args), pickled=pack(e, args)))
                 continue
             kr, parts = real_parts(mode, ext, args)
+            if mode == 'coo':
+                for f in features(ext[0]): hits['simplified-tree:' + f] += 1
             if not lean:
                 pyonly.append(dict(e=e, args=args, tag=tag, mode=mode, ext=ext, kr=kr, parts=parts, tol=tol, dense0=v0))
                 continue
@@ -321,9 +381,9 @@ def v_stream(c, ncases, maxdepth, npy=0):
             j2 = json.loads(r2); j2['c05'] = dict(spec, results=False)
             cases.append(dict(e=e, args=args, tag=tag, mode=mode, ext=ext, kr=kr, parts=parts, tol=tol, dense0=v0))
             reqs += [json.dumps(j1, separators=(',', ':')), json.dumps(j2, separators=(',', ':'))]
-    c.log('V: %d requests for the Lean evaluator' % len(reqs))
+    c.log('%s: %d requests for the Lean evaluator, %d cases for the real-evaluation oracle only' % (prefix, len(reqs), len(pyonly)))
     ans = []
-    for a in (yield reqs):
+    for a in ([] if late else (yield reqs)):
         if a.startswith('bad-request'):
             raise Infra('C05 driver rejected a request: ' + a[:300])
         ans.append(json.loads(a))
@@ -398,14 +458,15 @@ def v_stream(c, ncases, maxdepth, npy=0):
         if len(c.samples) < 3 and nnz > 1 and e.ndim >= 1 and case['kr'] == 'ok':
             c.sample(dict(stream='V', mode=mode, expr=X.describe(e, args)['tree'][:1200], lean_symbolic=a2['verdict'], lean_concrete=a1['verdict'],
                           real=[numpy.asarray(p).tolist() if not isinstance(p, tuple) else [numpy.asarray(q).tolist() for q in p] for p in parts[1:]]))
-    for k, v in sorted(out.items()): c.count('V:' + k, v)
-    for k, v in sorted(hits.items()): c.count(k, v)
-    c.extra['proved_symbolically_for_all_real_arguments'] = nsym
-    c.extra['decided_exactly_at_sample_point_only'] = nconc
-    c.obligation('corr:spec-eval(sparse-trees)', nspec_bad == 0 and nspec > 0, 'correspondence', '%d roots of real sparse trees evaluated identically by the Lean spec and the real code' % nspec)
-    c.obligation('valid:sparse-denotes-dense(lean)', nsym + nconc > 0 and not any(v[2].startswith(('assparse-wrong', 'as_csr-wrong')) for v in c.violations), 'validation',
-                 '%d symbolic (all real arguments) + %d exact at the sample point' % (nsym, nconc))
-    c.obligation('oracle:real-sparse-eval-denotes-dense', nreal > 0 and not any(v[2].startswith(('assparse-wrong', 'as_csr-wrong', 'sparse-')) for v in c.violations), 'correspondence',
+    for k, v in sorted(out.items()): c.count(prefix + ':' + k, v)
+    for k, v in sorted(hits.items()): c.count(prefix + ':' + k if prefix != 'V' else k, v)
+    if ncases:
+        c.extra['proved_symbolically_for_all_real_arguments'] = nsym
+        c.extra['decided_exactly_at_sample_point_only'] = nconc
+        c.obligation('corr:spec-eval(sparse-trees)', nspec_bad == 0 and nspec > 0, 'correspondence', '%d roots of real sparse trees evaluated identically by the Lean spec and the real code' % nspec)
+        c.obligation('valid:sparse-denotes-dense(lean)', nsym + nconc > 0 and not any(v[2].startswith(('assparse-wrong', 'as_csr-wrong')) for v in c.violations), 'validation',
+                     '%d symbolic (all real arguments) + %d exact at the sample point' % (nsym, nconc))
+    c.obligation('oracle:real-sparse-eval-denotes-dense' + ('' if prefix == 'V' else '(%s)' % prefix), nreal > 0 and not any(v[2].startswith(('assparse-wrong', 'as_csr-wrong', 'sparse-')) for v in c.violations), 'correspondence',
                  '%d real evaluations of sparse tuples checked by exact recomputation' % nreal)
 
 
@@ -429,6 +490,19 @@ def gen_entries(rng, maxdim=3):
         for _ in range(rng.randint(1, m // 2)):
             tuples[rng.randrange(m)] = list(tuples[rng.randrange(m)])
     values = [rng.choice([0, 1, -1, 2, 3, -5, 7]) for _ in range(m)]
+    return shape, tuples, values
+
+
+def gen_entries_hi(rng):
+    """entry list of a rank 2..4 array with pairwise different axis lengths (a stride or axis mix-up between axes of equal length is invisible)"""
+    nd = rng.choice([2, 3, 3, 3, 4, 4])
+    shape = list(G.distinct_shape(rng, nd, maxsize=72))
+    m = rng.choice([1, 2, 3, 5, 8, 12, 20])
+    tuples = [[rng.randrange(n) for n in shape] for _ in range(m)]
+    if m >= 2 and rng.random() < .4:
+        for _ in range(rng.randint(1, m // 2)):
+            tuples[rng.randrange(m)] = list(tuples[rng.randrange(m)])
+    values = [rng.choice([1, -1, 2, 3, -5, 7]) for _ in range(m)]
     return shape, tuples, values
 
 
@@ -613,13 +687,15 @@ def m_chunks(c, n):
     yield []
     for _ in range(n):
         rng = c.rng
-        shape, tuples, values = gen_entries(rng)
+        hi = rng.random() < .4
+        shape, tuples, values = gen_entries_hi(rng) if hi else gen_entries(rng)
         nd = len(shape)
         args = {'v': numpy.array(values, dtype=float)}
         child = scatter_expr(shape, tuples, values)
         dense = py_dense(shape, tuples, values).astype(float)
         ops = ['Diagonalize', 'Transpose', 'InsertAxis', 'Inflate', 'Sum', 'Add', 'Multiply', 'Multiply3', 'Unravel'] + (['Ravel', 'Inflate2', 'Transpose'] if nd >= 2 else [])
-        op = rng.choice(ops)
+        if hi: ops = ['InflateK', 'InflateK', 'MultiplyN', 'MultiplyN', 'Transpose', 'Ravel', 'Unravel', 'Sum', 'Add', 'Diagonalize', 'InsertAxis']
+        op = rng.choice(ops); detail = None
         if op == 'Ravel':
             X = ev.Ravel(child); ref = dense.reshape(tuple(shape[:-2]) + (shape[-2] * shape[-1],))
         elif op == 'Unravel':
@@ -647,6 +723,41 @@ def m_chunks(c, n):
             ref = numpy.zeros(tuple(shape[:-2]) + (N,))
             for k1 in range(shape[-2]):
                 for k2 in range(shape[-1]): ref[..., dm[k1, k2]] += dense[..., k1, k2]
+        elif op == 'InflateK':   # block inflation: the dofmap spans the trailing k axes (k = 0..nd) of the sparse operand
+            k = rng.choice([a for a in range(nd + 1) for _ in range(1 + (a >= 3))])
+            dshape = tuple(shape[nd-k:])
+            N = rng.choice([1, 2, 3, 5, 7, int(numpy.prod(dshape)) + 1])
+            dm = numpy.array(rng.sample(range(N), int(numpy.prod(dshape))) if numpy.prod(dshape) <= N and rng.random() < .5 else [rng.randrange(N) for _ in range(int(numpy.prod(dshape)))], dtype=int).reshape(dshape)
+            if rng.random() < .3:
+                args['d'] = dm; dofmap = ev.InRange(ev.Argument('d', tuple(ev.constant(n) for n in dshape), int), ev.constant(N))
+            else:
+                dofmap = ev.Constant(types.arraydata(dm))
+            X = ev.Inflate(child, dofmap, ev.constant(N))
+            ref = numpy.zeros(tuple(shape[:nd-k]) + (N,))
+            for pos in itertools.product(*[range(n) for n in dshape]):
+                ref[(Ellipsis, dm[pos])] += dense[(Ellipsis,) + pos]
+            detail = '%dd-dofmap' % k
+        elif op == 'MultiplyN':  # 2..5 factors on arbitrary axis subsets (each axis real in some factor), sparse or dense, any order and association
+            nf = rng.choice([2, 3, 3, 3, 4, 5])
+            subsets = G.random_subsets(rng, nd, nf, True)
+            first = rng.randrange(nf) if rng.random() < .3 else None
+            if first is not None: subsets[first] = list(range(nd))       # the entry list itself is one of the factors
+            factors = []; ref = numpy.ones(shape)
+            for j, w in enumerate(subsets):
+                if j == first:
+                    f, d = child, dense
+                else:
+                    sh = [shape[i] for i in w]
+                    if w and rng.random() < .6:
+                        m = rng.choice([0, 1, 2, 4]); t2 = [[rng.randrange(n) for n in sh] for _ in range(m)]; v2 = [rng.choice([1, -1, 2, 3]) for _ in range(m)]
+                        f = scatter_expr(sh, t2, v2, name='f%d' % j); args['f%d' % j] = numpy.array(v2, dtype=float); d = py_dense(sh, t2, v2).astype(float)
+                    else:
+                        d = numpy.array([rng.randint(-3, 3) for _ in range(int(numpy.prod(sh)))], dtype=float).reshape(sh)
+                        f = ev.Argument('f%d' % j, tuple(ev.constant(n) for n in sh), float); args['f%d' % j] = d
+                factors.append(G.insert_axes(rng, f, w, shape))
+                ref = ref * d.reshape([shape[i] if i in w else 1 for i in range(nd)])
+            X = G.assoc(rng, factors, ev.Multiply)
+            detail = '%dfactors' % nf
         elif op == 'Sum':
             X = ev.Sum(child); ref = dense.sum(-1)
         elif op == 'Add':
@@ -683,7 +794,9 @@ def m_chunks(c, n):
             for k in shape: right = ev.InsertAxis(right, ev.constant(k))
             right = ev.Transpose(right, tuple(range(1, nd + 1)) + (0,))
             X = ev.Multiply(types.frozenmultiset([left, right])); ref = dense[..., None] * d2
-        c.count('M:chunks:' + op); c.case(('chunks', op, tuple(shape), tuple(map(tuple, tuples)), tuple(values)), nontrivial=len(values) > 0)
+        c.count('M:chunks:' + op); c.count('M:chunks:operand-ndim=%d' % nd)
+        if detail: c.count('M:chunks:%s:%s' % (op, detail))
+        c.case(('chunks', op, tuple(shape), tuple(map(tuple, tuples)), tuple(values)), nontrivial=len(values) > 0)
         replay = dict(op='_assparse:' + op, shape=shape, tuples=tuples, values=values, arguments={k: v.tolist() for k, v in args.items()}, reference=ref.tolist())
         def run():
             chunks = X._assparse
@@ -708,6 +821,7 @@ def m_chunks(c, n):
             c.failing_input('_assparse-chunk-wrong:%s:%s' % (op, bad), 'the chunks of %s._assparse do not accumulate to %s of the dense operand (clause %s)' % (op, op, bad),
                             dict(replay, chunks=[[numpy.asarray(a).tolist() for a in ch] for ch in val])); continue
         c.traces += 1
+    c.log('chunks: done')
     c.obligation('corr:_assparse-overrides(chunks_denote)', nbad == 0, 'correspondence', '%d real chunk lists accumulated exactly' % n)
 
 
@@ -892,24 +1006,45 @@ def m_function(c, n):
                 if not ok:
                     nbad += 1
                     c.failing_input('consumer-project-wrong', 'Topology.project (function.as_csr -> assemble_csr -> solve) differs from the dense least squares solution (%s)' % tag, replay); continue
+    c.log('function: done')
     c.obligation('corr:function.as_coo/as_csr+consumers', nbad == 0, 'correspondence', '%d FEM integrals evaluated sparse and dense' % n)
 
 
 def run_batched(c, streams):
-    """every stream is a generator that yields its Lean requests once and receives the answers: one driver process for all"""
+    """every stream is a generator that yields its Lean requests once and receives the answers: one driver process for all.
+    Streams without requests (pure real-code + exact-oracle streams) do their work in the main thread while the driver is busy."""
+    import threading
     reqs = [next(g) for g in streams]
     c.log('generated %s requests' % [len(r) for r in reqs])
     flat = [r for rs in reqs for r in rs]
-    ans = c.model(flat)
-    c.log('Lean driver answered %d requests' % len(ans))
-    pos = 0
-    for g, rs in zip(streams, reqs):
+    def resume(g, answers):
         try:
-            g.send(ans[pos:pos+len(rs)])
+            g.send(answers)
         except StopIteration:
             pass
         else:
             raise Infra('stream did not finish after receiving its answers')
+    result = {}
+    def drive():
+        try:
+            result['ans'] = c.model(flat)
+        except BaseException as ex:
+            result['exc'] = ex
+    t = threading.Thread(target=drive)
+    t.start()
+    try:
+        for g, rs in zip(streams, reqs):
+            if not rs: resume(g, [])
+        c.log('streams on the real code only: done')
+    finally:
+        t.join()     # c.model kills the driver's process group on timeout: nothing is left behind
+    if 'exc' in result:
+        raise result['exc']
+    ans = result['ans']
+    c.log('Lean driver answered %d requests' % len(ans))
+    pos = 0
+    for g, rs in zip(streams, reqs):
+        if rs: resume(g, ans[pos:pos+len(rs)])
         pos += len(rs)
 
 
@@ -953,7 +1088,9 @@ def run(c):
     quick = c.tier == 'quick'
     streams = [m_compress(c, 300 if quick else 20000), m_accumulate(c, 100 if quick else 3000), m_unique(c, 60 if quick else 2000),
                m_assparse(c, 60 if quick else 2000), m_chunks(c, 150 if quick else 3000), m_selftest(c, 80 if quick else 3000), m_function(c, 25 if quick else 300),
-               v_stream(c, 60 if quick else 1000, 4 if quick else 5, 240 if quick else 4000)]
+               v_stream(c, 60 if quick else 1000, 4 if quick else 5),
+               v_stream(c, 0, 4 if quick else 5, 240 if quick else 4000, prefix='S', late=True,
+                        struct=dict(prod=40, orders2=1, inflate=40, loop=50, dag5=40) if quick else dict(prod=1000, orders2=4, orders3=2, inflate=1000, loop=800, dag5=1000))]
     run_batched(c, streams)
     for b in broken:
         c.broken_no_input('proof', b, dict(detail=b))
